@@ -71,7 +71,7 @@ class TallyParser(DataParser):
     def tally_group(self, p):
         left = syntax_node.PaddingNode(p[0])
         if hasattr(p, "padding"):
-            left.append(p.padding)
+            left += p.padding
         right = syntax_node.PaddingNode(p[-1])
         return syntax_node.SyntaxNode(
             "tally set", {"left": left, "tally": p.number_sequence, "right": right}
